@@ -107,7 +107,9 @@ func fullValsOf(t *meta.Type, asList bool) []val.Value {
 	case val.FmtBinary:
 		out = append(out, val.Binary("AQID"), val.Binary("/+8="), val.Binary(""))
 	case val.FmtUnion:
-		out = append(out, val.Int32(5), val.Int32(-1), val.String("x"), val.String(""), val.String("a b"))
+		out = append(out, val.Int32(5), val.Int32(-1), val.String("x"), val.String(""), val.String("a b"), val.String("true"))
+		// strings that are lexical values of an earlier member ("42" in union{int32,string}) are not
+		// values of the union: RFC 7950 9.12 gives them to the first member that matches
 	}
 	if !asList {
 		return out
